@@ -30,6 +30,8 @@ def conv_val(v):
         return ("bool", v["b"])
     if "m" in v:
         return ("map", [(k, conv_val(x)) for k, x in v["m"]])
+    if "l" in v:
+        return ("arr", [conv_val(x) for x in v["l"]])
     if "e" in v:
         return ("error",)
     if "a" in v:
@@ -42,6 +44,8 @@ def has_other(v):
         return True
     if v[0] == "map":
         return any(has_other(x) for _, x in v[1])
+    if v[0] == "arr":
+        return any(has_other(x) for x in v[1])
     return False
 
 
@@ -144,6 +148,8 @@ def cq_val(v):
         return f"(VBool {coq_bool(v[1])})"
     if k == "map":
         return "(VMap " + cq_amap(v[1]) + ")"
+    if k == "arr":
+        return "(VArr [" + "; ".join(cq_val(x) for x in v[1]) + "])"
     if k == "error":
         return "VError"
     if k == "absent":
